@@ -87,6 +87,10 @@ pub struct Scenario {
     /// and one of 9000 bytes. What the serializer keeps from one response to the next (buffers, sizes) must not show.
     #[serde(default)]
     pub warmup: u8,
+    /// Some(k): the reader's stall outlasts the session's own time-out while the response is still on its way (k = 0 the
+    /// scripted response, 1 the 9000-byte one). The session may be cut there; what arrived must be a prefix of the response
+    #[serde(default)]
+    pub overlong: Option<u8>,
 }
 
 /// (the response, its status, its content: (content type, bytes)) for `first` kind k
@@ -435,7 +439,14 @@ pub fn generate(_cfg: &RunCfg, _out: &mut Outcome) -> Scenario {
     if (biggest / read_max.min(window).max(1)) as u64 * read_pause_ms > if stall.is_some() { 6_000 } else { 10_000 } {
         read_pause_ms = 0;
     }
+    // the stall may outlast the session's time-out (42 s): the response is then cut, never spliced
+    let overlong = if stall.is_some() && t::chance(1, 2) { Some(t::draw(2) as u8) } else { None };
+    let stall = match (overlong, stall) {
+        (Some(_), Some((a, _))) => Some((a.min(200), t::pick(&[43_000u64, 50_000, 70_000]))),
+        (_, s) => s,
+    };
     Scenario {
+        overlong,
         stall,
         status,
         handler_ops,
@@ -450,7 +461,7 @@ pub fn generate(_cfg: &RunCfg, _out: &mut Outcome) -> Scenario {
         wall: match t::draw(4) {
             0 => 1_700_000_000,
             1 => t::range(0, 253_402_300_799),
-            2 => t::pick(&[0u64, 951_782_400, 4_102_444_799, 253_402_300_799 - 40]),
+            2 => t::pick(&[0u64, 951_782_400, 4_102_444_799, 253_402_300_799 - 200]),
             _ => 1_700_000_000 + t::range(0, 100_000_000),
         },
     }
@@ -538,6 +549,88 @@ fn hazards(sc: &Scenario, out: &mut Outcome) {
     }
 }
 
+/// the value of `Date` is the one thing that may differ between two deliveries of the same response
+fn mask_date(v: &[u8]) -> Vec<u8> {
+    let mut o = v.to_vec();
+    if let Some(p) = crate::client::find(&o, b"\r\nDate: ") {
+        let from = p + 8;
+        let to = (from + 29).min(o.len());
+        for b in &mut o[from..to] {
+            *b = b'X';
+        }
+    }
+    o
+}
+
+/// the server is already running; the reader of one connection stalls beyond the session's time-out with the response
+/// still on its way. Reference: the same request on another connection that reads at once
+fn execute_overlong(sc: &Scenario, which: u8, out: &mut Outcome) {
+    out.probe("c03.reader_stalls_beyond_the_session_timeout");
+    let obs: Rc<RefCell<(Option<Vec<u8>>, Option<(bool, Vec<u8>)>)>> = Rc::new(RefCell::new((None, None)));
+    let o2 = obs.clone();
+    let (head, short_writes, window, read_max) = (sc.head, sc.short_writes, sc.window, sc.read_max);
+    let stall = sc.stall;
+    simcore::spawn_task("client", "client", async move {
+        let req = format!("{} {} HTTP/1.1\r\nHost: sim\r\n\r\n", if head { "HEAD" } else { "GET" }, if which == 1 { "/big" } else { "/r" });
+        let Ok(mut r) = Client::connect(rt::ADDR, ConnCfg::default()).await else { return };
+        r.send(req.as_bytes(), 0);
+        match r.recv(head, DEFAULT_TIMEOUT).await {
+            Ok(resp) if resp.framing != Framing::Undetermined => o2.borrow_mut().0 = Some(resp.raw.clone()),
+            _ => return,
+        }
+        r.send_fin(0);
+        let cfg = ConnCfg { short_writes, window, ..ConnCfg::default() };
+        let Ok(mut c) = Client::connect(rt::ADDR, cfg).await else { return };
+        c.send(req.as_bytes(), 0);
+        c.stall = stall.map(|(a, ms)| (a, ms * MS));
+        let got = match c.recv_paced(head, DEFAULT_TIMEOUT, read_max, 0).await {
+            Ok(resp) => (true, resp.raw.clone()),
+            Err(RecvErr::Closed(b) | RecvErr::Reset(b) | RecvErr::Timeout(b) | RecvErr::Malformed(_, b)) => (false, b),
+        };
+        o2.borrow_mut().1 = Some(got);
+        c.send_fin(0);
+    });
+    let end = simcore::run();
+    let panics = rt::panicked_tasks();
+    if let Some((_, _, file, _, msg)) = panics.first() {
+        out.violate("no-panic", rt::panic_site(file, msg), format!("a server task panicked at {file}: {msg}"));
+        return;
+    }
+    if matches!(end, simcore::EndReason::StepCap | simcore::EndReason::TimeCap) {
+        out.verdict = Verdict::Inconclusive(format!("{end:?}"));
+        return;
+    }
+    let obs = obs.borrow();
+    let (Some(full), Some((complete, got))) = (&obs.0, &obs.1) else {
+        // the reference exchange itself failed: the ordinary scenarios report that
+        out.verdict = Verdict::Inconclusive("no reference response".into());
+        return;
+    };
+    out.nontrivial = true;
+    let (f, g) = (mask_date(full), mask_date(got));
+    if *complete && f == g {
+        out.probe("c03.response_complete_before_the_session_timeout");
+        return;
+    }
+    if !f.starts_with(&g) || (*complete && f != g) {
+        let at = f.iter().zip(g.iter()).position(|(a, b)| a != b).unwrap_or(f.len().min(g.len()));
+        out.violate(
+            "cut-not-spliced",
+            if g.len() > f.len() { "more-bytes-than-the-response" } else { "other-bytes-inside-the-response" },
+            format!(
+                "a reader that stalled for {} s got {} bytes; the same response read at once has {} bytes; they differ from byte {at}: got {:?}, response has {:?}",
+                stall.map(|s| s.1 / 1000).unwrap_or(0),
+                g.len(),
+                f.len(),
+                String::from_utf8_lossy(&g[at..g.len().min(at + 60)]),
+                String::from_utf8_lossy(&f[at.min(f.len())..f.len().min(at + 60)])
+            ),
+        );
+        return;
+    }
+    out.probe("c03.response_cut_at_the_session_timeout");
+}
+
 fn execute(sc: &Scenario, out: &mut Outcome) {
     out.scenario = serde_json::to_value(sc).unwrap_or(serde_json::Value::Null);
     out.scenario_hash = rt::fnv64(serde_json::to_string(sc).unwrap_or_default().as_bytes());
@@ -605,6 +698,10 @@ fn execute(sc: &Scenario, out: &mut Outcome) {
 
     let app = Ohkami::new((ScriptBack, "/r".GET(scripted), "/ping".GET(ping), "/big".GET(|| async { "B".repeat(9000) })));
     rt::serve(app);
+    if let Some(which) = sc.overlong {
+        execute_overlong(sc, which, out);
+        return;
+    }
     let obs: Rc<RefCell<(Option<Result<Resp, RecvErr>>, Option<Result<Resp, RecvErr>>)>> = Rc::new(RefCell::new((None, None)));
     let o2 = obs.clone();
     let (head, short_writes, window, read_max, pause) = (sc.head, sc.short_writes, sc.window, sc.read_max, sc.read_pause_ms);
